@@ -38,6 +38,7 @@ type mux struct {
 
 	mu       sync.Mutex
 	readSize []int                // read-buffer sizes the stub cycles through (current case)
+	copyFrom int                  // > 0: after copyFrom-1 plain reads the stub takes the rest with io.Copy (0 = plain reads only)
 	got      map[string]*received // by client address
 	done     map[string]chan struct{}
 }
@@ -76,6 +77,7 @@ func (m *mux) serveConn(name string, c net.Conn) {
 	key := c.RemoteAddr().String()
 	m.mu.Lock()
 	sizes := append([]int(nil), m.readSize...)
+	copyFrom := m.copyFrom
 	m.mu.Unlock()
 	if len(sizes) == 0 {
 		sizes = []int{4096}
@@ -83,6 +85,15 @@ func (m *mux) serveConn(name string, c net.Conn) {
 	rec := &received{service: name}
 	c.SetReadDeadline(time.Now().Add(30 * time.Second))
 	for i := 0; ; i++ {
+		if copyFrom > 0 && i == copyFrom-1 {
+			// a service may hand the connection to io.Copy (a relay, a file sink): that
+			// goes through io.WriterTo / io.ReaderFrom fast paths when the connection
+			// type offers them (after seeded change C19-R6A)
+			var rest bytes.Buffer
+			io.Copy(&rest, c)
+			rec.data = append(rec.data, rest.Bytes()...)
+			break
+		}
 		buf := make([]byte, sizes[i%len(sizes)])
 		n, err := c.Read(buf)
 		if n > 0 {
@@ -270,9 +281,14 @@ func TestMuxRouting(t *testing.T) {
 		data := append([]byte(fl.Text), payload...)
 		segs := segments(t, len(data))
 		rs := rapid.SliceOfN(rapid.SampledFrom([]int{1, 2, 3, 5, 7, 14, 15, 16, 64, 1024, 4096}), 1, 4).Draw(t, "readSizes")
+		cf := rapid.SampledFrom([]int{0, 0, 0, 1, 2, 3}).Draw(t, "ioCopyFromRead")
 		long.mu.Lock()
 		long.readSize = rs
+		long.copyFrom = cf
 		long.mu.Unlock()
+		if cf > 0 {
+			evid.Class(fmt.Sprintf("service takes the connection with io.Copy after %d plain reads", cf-1))
+		}
 
 		rec, reply, _ := runConn(t, long, data, segs, true, 30*time.Second)
 		evid.Eval(1)
